@@ -328,6 +328,7 @@ type SvcRun struct {
 	H      *Hist
 	States map[string]bool
 	Hang   string
+	Final  string // parked tasks when the loop ended (debug output)
 }
 
 // RunSvc runs a SvcCase to completion inside the bubble and returns the
@@ -372,12 +373,23 @@ func RunSvc(sim *sched.Sim, c *SvcCase, raceMode bool, setup func(e *Engine)) *S
 		}
 		return int(e.cur.Load()) >= ep
 	}
+	libParked := 0
 	filter := func(t *sched.Task) bool {
 		if !t.Harness {
 			return true
 		}
 		if t == life {
 			return t.Point != "life.wait" // life.wait is handled below
+		}
+		if t.Point == "serve.retrywait" {
+			// Serve was refused because the previous Shutdown is still in
+			// progress: retry once that call has returned, or once no
+			// library goroutine is left that could be finishing it
+			ep, _ := strconv.Atoi(t.Arg)
+			if ep == 0 || e.Epochs[ep-1].ShutdownReturn != 0 || life.IsDone() {
+				return true
+			}
+			return libParked == 0
 		}
 		if t.Point == "actor.op" {
 			id, _ := strconv.Atoi(t.Arg)
@@ -402,6 +414,14 @@ func RunSvc(sim *sched.Sim, c *SvcCase, raceMode bool, setup func(e *Engine)) *S
 	idleTime := time.Duration(0)
 	for iter := 0; iter < 20000; iter++ {
 		sim.Wait()
+		if serve.IsParked() && serve.Point == "serve.retrywait" {
+			libParked = 0
+			for _, t := range sim.Parked() {
+				if !t.Harness {
+					libParked++
+				}
+			}
+		}
 		if serve.IsDone() && life.IsDone() && e.ActorsDone() {
 			acts := sim.Enabled(filter)
 			if len(acts) == 0 {
@@ -454,6 +474,9 @@ func RunSvc(sim *sched.Sim, c *SvcCase, raceMode bool, setup func(e *Engine)) *S
 		}
 		idleTime = 0
 		sim.Perform(sim.Pick(acts))
+	}
+	for _, t := range sim.Parked() {
+		run.Final += " [" + t.Name + "/" + t.Role + " @" + t.Point + "(" + t.Arg + ")]"
 	}
 	return run
 }
@@ -828,7 +851,9 @@ func (c *canonT) canon(s string) string {
 	return s[:i] + "INBOX#" + strconv.Itoa(c.n)
 }
 
-func (CoreScenario) GenCase(r *rand.Rand, prop string) interface{} { return CoreScenario{}.Gen(r, prop) }
+func (CoreScenario) GenCase(r *rand.Rand, prop string) interface{} {
+	return CoreScenario{}.Gen(r, prop)
+}
 
 func (CoreScenario) DecodeCase(raw json.RawMessage) (interface{}, error) {
 	c := &SvcCase{}
@@ -882,7 +907,7 @@ func (r *SvcRun) Outcome(prop string) *Outcome {
 		for _, rec := range r.H.Recs {
 			fmt.Fprintf(w, "  H seq=%d step=%d %s task=%s group=%q sub=%d %s\n", rec.Seq, rec.Step, rec.Kind, rec.Task, rec.Group, rec.Sub, rec.Extra)
 		}
-		fmt.Fprintf(w, "  hang=%q\n", r.Hang)
+		fmt.Fprintf(w, "  hang=%q parked at end:%s\n", r.Hang, r.Final)
 	}
 	nops := 0
 	for _, a := range r.E.Case.Actors {
